@@ -94,6 +94,10 @@ func runKchunk(r *rng, n int) {
 		func() {
 			defer func() { pan = recover() }()
 			total, err = p9.VerifChunk(uint32(cs), func(b []byte, o int64) (int, error) {
+				if len(calls) > ln+16 {
+					// more calls than bytes: the loop under test does not terminate – stop it
+					panic("runaway chunk loop")
+				}
 				calls = append(calls, fmt.Sprintf("%d@%d", len(b), o))
 				nn, ec := chunkBehaviour(table, len(b), o)
 				return nn, errTable[ec]
